@@ -70,12 +70,12 @@ def run(tier, scratch, drv, only_cases=None):
     with open(rp) as f:
         summary = json.load(f)
     forced = sum(1 for c in cases if c["cfg"].get("mode") != "free")
-    if forced and summary.get("sched_failures", 0) > forced // 2:
-        raise vlib.Inconclusive("the gate scheduler could not drive %d of %d schedules" % (summary["sched_failures"], forced))
     res["replay"] = {"cases": summary["cases"], "matched": summary["matched"], "wall_s": wall,
                      "notes": summary["notes"], "crashed": 0, "sched_failures": summary.get("sched_failures", 0)}
     bad, events, mwall = vlib.run_monitor("PendObs", MONITOR_CFG, trace, scratch, shards=8)
     res["monitor"] = {"events": events, "wall_s": mwall, "bad": len(bad)}
+    if not bad and forced and summary.get("sched_failures", 0) > forced // 2:
+        raise vlib.Inconclusive("the gate scheduler could not drive %d of %d schedules" % (summary["sched_failures"], forced))
     by_n = {c["n"]: c for c in cases}
     mism = {m["n"]: m for m in (summary.get("mismatches") or [])}
     bad_set = {n for (n, _) in bad}
